@@ -30,7 +30,7 @@ class A:
 
     def __init__(self, ret=None, requires=None, ensures=None, decreases=None, spec_raw=None, loops=None, closures=None,
                  body_begin=None, body_end=None, arm_begin=None, arm_end=None, after=None, before=None, attrs=None,
-                 rewrites=None, props=(), external_body=False, note=None, params_mut=None, no_canary=False, arm_rewrites=None, stub=False, arm_replace=None, method_table=None):
+                 rewrites=None, props=(), external_body=False, note=None, params_mut=None, no_canary=False, arm_rewrites=None, stub=False, arm_replace=None, method_table=None, ret_type=None):
         self.ret = ret                      # name for the return value
         self.requires = requires or []      # list of (name, text)
         self.ensures = ensures or []        # list of (name, text)
@@ -50,6 +50,7 @@ class A:
         self.external_body = external_body
         self.note = note
         self.no_canary = no_canary
+        self.ret_type = ret_type              # the return type the contract was written for (signature-change detection)
         self.method_table = method_table      # method name -> trampoline: the body is mechanically rewritten (vgen.mcall); R2m
         self.arm_replace = arm_replace or {}     # pattern -> (new body text, reason): the arm's body is NOT verified (dropped, replaced by a trampoline call)
         self.stub = stub                    # keep the signature verbatim, drop the body (external_body + unimplemented!()): callee known by contract only
@@ -107,6 +108,7 @@ class Unit:
         self.dropped = set()
         self.rewrites_applied = []
         self.assumption_notes = []
+        self.sig_mismatch = []      # (fn, return type the contract was written for, return type found)
         self.lemmas = []            # (name of a proof fn in the raw text, props): counted as one obligation each
 
     def src(self, rel):
@@ -272,6 +274,10 @@ def annotate_fn(unit, src, it, fnq, a: A, em: Emitter, canary=None):
     sig_end = where_i if where_i is not None else body_open
     if j < sig_end and toks[j].text == '-' and toks[j + 1].text == '>':
         ret_s, ret_e = j + 2, sig_end
+    if a.ret_type is not None:
+        actual = rscan.norm(toks[ret_s:ret_e]) if ret_s is not None else '()'
+        if actual != rscan.norm_text(a.ret_type):
+            unit.sig_mismatch.append((fnq, a.ret_type, actual))
     if a.ret:
         if ret_s is None:
             raise LostAnchor(f'{fnq}: return value named but fn has no return type')
@@ -419,10 +425,23 @@ def annotate_fn(unit, src, it, fnq, a: A, em: Emitter, canary=None):
     # ---- generic anchors ----
     for which, table in (('after', a.after), ('before', a.before)):
         for key, text in table.items():
+            stmt = False
+            if isinstance(key, tuple) and key and key[0] == 'stmt':
+                # ('stmt', prefix, occ): the whole statement that starts with `prefix` (up to its terminating `;`), whatever follows the prefix
+                stmt, key = True, key[1:]
             seq, occ = (key, 0) if isinstance(key, str) else key
             r = rscan.find_seq(toks, body_lo, body_hi, seq, occ)
             if r is None:
                 raise LostAnchor(f'{fnq}: anchor `{seq}` #{occ} not found')
+            if stmt:
+                k = r[1]
+                while k < body_hi and not (toks[k].kind == 'p' and toks[k].text == ';'):
+                    if toks[k].kind == 'p' and toks[k].text in rscan.OPEN:
+                        k = br[k]
+                    k += 1
+                if k >= body_hi:
+                    raise LostAnchor(f'{fnq}: statement `{seq}` #{occ} has no terminating `;`')
+                r = (r[0], k + 1)
             objs = []
             for o in (text if isinstance(text, list) else [text]):
                 objs += _wrap_arm_obj(fnq, seq, o)
@@ -455,6 +474,27 @@ def _vis_start(toks, it):
     for (a, b) in it.attrs:
         i = max(i, b)
     return i
+
+
+def _replace_tokens_in_text(text, old, new):
+    """replace every occurrence of the token sequence `old` in `text` by `new` -> (text, count)"""
+    pt = [t.text for t in rscan.tokenize(old)]
+    n = 0
+    while True:
+        toks = rscan.tokenize(text)
+        hit = None
+        for i in range(len(toks) - len(pt) + 1):
+            if [t.text for t in toks[i:i + len(pt)]] == pt:
+                hit = (toks[i].s, toks[i + len(pt) - 1].e)
+                break
+        if hit is None or new.replace(' ', '') == old.replace(' ', ''):
+            return text.replace('\x00', new), n
+        # do not loop forever when `new` contains `old`
+        text = text[:hit[0]] + '\x00' + text[hit[1]:]
+        n += 1
+        if n > 50:
+            return text.replace('\x00', new), n
+        continue
 
 
 def apply_rewrites_tokens(src, lo, hi, rewrites, em, applied, label):
@@ -662,7 +702,10 @@ def _emit_item(unit, g, src, it, iid, label, a, fnq, emit, canary, spec):
     if it.kind in ('enum', 'struct') and it.body_open is not None:
         _drop_inner_attrs(src, it, em, g)
     rw_applied = []
-    apply_rewrites_tokens(src, _vis_start(src.toks, it), it.end, list(a.rewrites) + list(unit.global_rewrites), em, rw_applied, label)
+    rw_hi = it.end
+    if it.kind == 'fn' and getattr(a, 'method_table', None) and it.body_open is not None:
+        rw_hi = it.body_open     # the body is rewritten as a whole below (token rewrites are applied to it there)
+    apply_rewrites_tokens(src, _vis_start(src.toks, it), rw_hi, list(a.rewrites) + list(unit.global_rewrites), em, rw_applied, label)
     if it.kind == 'fn' and fnq is not None:
         if a.arm_rewrites and not a.external_body:
             blo, bhi = it.body_open + 1, src.br[it.body_open]
@@ -680,10 +723,16 @@ def _emit_item(unit, g, src, it, iid, label, a, fnq, emit, canary, spec):
             blo, bhi = it.body_open + 1, src.br[it.body_open]
             if bhi > blo:
                 old_body = src.text_of(blo, bhi)
+                pre_counts = []
+                for (old, new, reason) in list(a.rewrites) + list(unit.global_rewrites):
+                    old_body, n = _replace_tokens_in_text(old_body, old, new)
+                    if n:
+                        pre_counts.append((f'`{old}`->`{new}`', n))
                 new_body, counts = mcall.rewrite_method_calls(old_body, a.method_table)
+                counts = pre_counts + list(counts)
                 if counts:
                     em.replace_toks(blo, bhi, new_body)
-                    rw_applied.append(dict(item=label, old=None, new=new_body.strip()[:160], count=1, positions=[(blo, bhi)],
+                    rw_applied.append(dict(item=label, old=None, new=new_body, count=1, positions=[(blo, bhi)],
                                            reason='R2m: std/chrono method calls mechanically rewritten into trampoline calls: ' + ', '.join(f'{m} x{c}' for m, c in counts)))
         if a.arm_replace and not a.external_body:
             blo, bhi = it.body_open + 1, src.br[it.body_open]
